@@ -25,7 +25,7 @@ theorem Inv.wTake {s : State} (hI : Inv s) {h n ver : Nat} (hp : s.pc (.fr h) = 
       have := (hI.postOk c n (by simp [hc, Pc.post])).2.1
       rw [hnt] at this; cases this
   obtain ⟨kindC, kindF, lockOk, frWait, freshOk, freshUniq, freshVer, freshVerT, freshNode, wFreeTaken, preOk, postOk, ownOk, rsmTaken,
-    freeTaken, pubNode, waiting, parked, listOk, scanOk, prevOk, placed, oScanOk, oNoneOk, aUnlockOk, aNextOk, aResumeOk, aFreeOk,
+    freeTaken, pubNode, waiting, parked, listOk, scanOk, prevOk, placed, freshHolder, scanL0, unlockL0, oScanOk, oNoneOk, aUnlockOk, aNextOk, aResumeOk, aFreeOk,
     noRead, cTakeOk, cRemoveOk, allocUsed, noBad⟩ := hI
   constructor
   case kindC => inv_auto
@@ -67,6 +67,9 @@ theorem Inv.wTake {s : State} (hI : Inv s) {h n ver : Nat} (hp : s.pc (.fr h) = 
     · inv_simp; grind [updA, upd, Pc.pend, Pc.locks]
     · inv_simp; grind [updA, upd]
   case placed => inv_auto
+  case freshHolder => inv_auto
+  case scanL0 => inv_auto
+  case unlockL0 => inv_auto
   case oScanOk => inv_auto
   case oNoneOk => inv_auto
   case aUnlockOk => inv_auto
@@ -107,7 +110,7 @@ theorem Inv.cTakeOk' {s : State} (hI : Inv s) {a : Actor} {n ver : Nat} (hp : s.
       have := (hI.postOk c n (by simp [hc, Pc.post])).2.1
       rw [hnt] at this; cases this
   obtain ⟨kindC, kindF, lockOk, frWait, freshOk, freshUniq, freshVer, freshVerT, freshNode, wFreeTaken, preOk, postOk, ownOk, rsmTaken,
-    freeTaken, pubNode, waiting, parked, listOk, scanOk, prevOk, placed, oScanOk, oNoneOk, aUnlockOk, aNextOk, aResumeOk, aFreeOk,
+    freeTaken, pubNode, waiting, parked, listOk, scanOk, prevOk, placed, freshHolder, scanL0, unlockL0, oScanOk, oNoneOk, aUnlockOk, aNextOk, aResumeOk, aFreeOk,
     noRead, cTakeOk, cRemoveOk, allocUsed, noBad⟩ := hI
   constructor
   case kindC => inv_auto
@@ -147,6 +150,9 @@ theorem Inv.cTakeOk' {s : State} (hI : Inv s) {a : Actor} {n ver : Nat} (hp : s.
     · inv_simp; grind [updA, upd, Pc.pend, Pc.locks]
     · inv_simp; grind [updA, upd]
   case placed => inv_auto
+  case freshHolder => inv_auto
+  case scanL0 => inv_auto
+  case unlockL0 => inv_auto
   case oScanOk => inv_auto
   case oNoneOk => inv_auto
   case aUnlockOk => inv_auto
